@@ -87,14 +87,41 @@ Fixpoint json_wfb (j : json) : bool :=
   | JObj o => sdistinct (map fst o) && forallb (fun kv => json_wfb (snd kv)) o
   | _ => true
   end.
-(* no nan / inf / -inf anywhere (json.loads accepts NaN, Infinity, -Infinity and 1e999).  Only a member of type
-   "number" can hold one in a schema-valid body, i.e. only allocation_ratio; such a body is schema-valid and rejected by
-   handlers/inventory.py:make_inventory_object with 400 since df933f2. *)
+(* db/constants.py:SQL_SP_FLOAT_MAX = 3.40282e+38 as the exact integer value of that double; the "maximum" of
+   allocation_ratio in schemas/inventory.py.  Tied to the code by the decode stream (a ratio on either side of -max). *)
+Definition sp_float_max : Z := 340282000000000014192072600942972764160.
+(* |m * 2^e| <= b, exactly *)
+Definition flt_abs_le (m e b : Z) : bool :=
+  if 0 <=? e then Z.abs m * 2 ^ e <=? b else Z.abs m <=? b * 2 ^ (- e).
+(* handlers/inventory.py:make_inventory_object (df933f2, 1d23be2, 7fca050):
+   not (-SQL_SP_FLOAT_MAX <= ratio <= SQL_SP_FLOAT_MAX) -> 400.  False for nan, +-inf, and - Python compares an int
+   with a float exactly - for integers of any size beyond the bound. *)
+Definition ratio_storable (j : json) : bool :=
+  match j with
+  | JInt z => Z.abs z <=? sp_float_max
+  | JFlt m e => flt_abs_le m e sp_float_max
+  | JSpec _ => false
+  | _ => true
+  end.
+(* no nan / inf / -inf anywhere (json.loads accepts NaN, Infinity, -Infinity and 1e999), and every member called
+   "allocation_ratio" is within +-SQL_SP_FLOAT_MAX.  Only a member of type "number" can hold a non-finite value in a
+   schema-valid body, i.e. only allocation_ratio, whose schema has a maximum and no minimum; such a body is schema-valid
+   and rejected by make_inventory_object with 400. *)
 Fixpoint json_finiteb (j : json) : bool :=
   match j with
   | JSpec _ => false
   | JArr l => forallb json_finiteb l
-  | JObj o => forallb (fun kv => json_finiteb (snd kv)) o
+  | JObj o => forallb (fun kv => json_finiteb (snd kv) &&
+                                 (if str_eqb (fst kv) f_allocation_ratio then ratio_storable (snd kv) else true)) o
+  | _ => true
+  end.
+
+(* every number finite, and nothing more *)
+Fixpoint json_nospecb (j : json) : bool :=
+  match j with
+  | JSpec _ => false
+  | JArr l => forallb json_nospecb l
+  | JObj o => forallb (fun kv => json_nospecb (snd kv)) o
   | _ => true
   end.
 
@@ -108,9 +135,10 @@ Fixpoint strip2 (p : positive) (e : Z) : Z * Z :=
   | xO p' => strip2 p' (e + 1)
   | _ => (Zpos p, e)
   end.
-(* ops_reference.ratio_me: the value as (odd mantissa, exponent), 0 as (0, 0).  nan / inf have no such pair: None
-   models the 400 of make_inventory_object for a non-finite allocation_ratio (df933f2). *)
+(* ops_reference.ratio_me: the value as (odd mantissa, exponent), 0 as (0, 0).  nan / inf have no such pair, and a
+   value beyond +-SQL_SP_FLOAT_MAX is refused: None models the 400 of make_inventory_object (ratio_storable above). *)
 Definition num_ratio (j : json) : option (Z * Z) :=
+  if negb (ratio_storable j) then None else
   match j with
   | JInt 0 => Some (0, 0)
   | JInt (Zpos p) => Some (strip2 p 0)
